@@ -24,6 +24,8 @@ func checkC02(c *Ctx, r *Report) {
 	}
 	c02confirm(c, r, "C02-confirm")
 	c02process(c, r, "C02-process")
+	closeRule(c, r, "C02-close")
+	storeErrRule(c, r, "C02-store")
 
 	// ---- C02-dedup
 	r.Rule("C02-dedup", 1, "Reject only on the file-exists edge")
@@ -467,4 +469,68 @@ func c02process(c *Ctx, r *Report, rule string) {
 		r.Add(rule, where, "store to TrafficStats.Received", c.pos(fn.Pos())).Bad("received messages are never recorded in the traffic statistics")
 	}
 	_ = msgs
+}
+
+// storeErrRule: a failure to store an inbound message in the directory mailbox reaches the session
+// as an error (the session then refuses to confirm the block, so the sender keeps the message).
+func storeErrRule(c *Ctx, r *Report, rule string) {
+	r.Rule(rule, 1, "a failed store of an inbound message is reported to the session")
+	fn := c.Func("mailbox", "(*DirHandler).ProcessInbound")
+	if fn == nil {
+		r.Fail(rule, "anchor mailbox.(*DirHandler).ProcessInbound not found")
+		return
+	}
+	where := fnName(fn)
+	n := 0
+	for _, ci := range allCalls(fn) {
+		callee := ci.Common().StaticCallee()
+		name := callName(ci.Common())
+		writes := contentWriters[name] || (callee != nil && c.inModule(callee) && (c.performs(callee, "os.Rename") || c.performs(callee, "os.WriteFile") || c.performs(callee, "os.OpenFile")))
+		isBytes := name == "fbb.Message.Bytes"
+		if !writes && !isBytes {
+			continue
+		}
+		if ci.Value() == nil {
+			continue
+		}
+		errV := errResult(ci.Value())
+		if errV == nil {
+			continue
+		}
+		n++
+		o := r.Add(rule, where, "error of "+c.exprAt(fn, ci.Pos()), c.pos(ci.Pos()))
+		// find the test of this error; its non-nil edge must reach error exits only, and those exits
+		// must return a non-nil error
+		var bad string
+		tested := false
+		eachInstr(fn, func(b *ssa.BasicBlock, _ int, in ssa.Instruction) {
+			ifi, ok := in.(*ssa.If)
+			if !ok {
+				return
+			}
+			isTest, nilOnTrue := nilTest(Cond{V: ifi.Cond, Truth: true, If: ifi}, errV)
+			if !isTest {
+				return
+			}
+			tested = true
+			fail := b.Succs[0]
+			if nilOnTrue {
+				fail = b.Succs[1]
+			}
+			if !regionOnlyErrorExits(fail) {
+				bad = "the failure edge of the test at " + c.pos(ifi.Cond.Pos()) + " can reach a return that reports success"
+			}
+		})
+		switch {
+		case !tested:
+			o.Bad("the error is never tested: a message that could not be stored is reported as received (the remote marks it sent and it is lost)")
+		case bad != "":
+			o.Bad("%s: a message that could not be stored is reported as received - the sender marks it sent and it is lost", bad)
+		default:
+			o.OK("tested; the failure edge leaves ProcessInbound with a non-nil error on every path")
+		}
+	}
+	if n == 0 {
+		r.Add(rule, where, "store of the inbound message", c.pos(fn.Pos())).Bad("no call that writes the message found in ProcessInbound (unresolved)")
+	}
 }
